@@ -53,6 +53,7 @@ type FuncV struct {
 	Fn      *ssa.Function
 	Bind    []Value
 	Builtin *ssa.Builtin
+	Native  ModelFn
 }
 
 type TupleV []Value
